@@ -564,10 +564,10 @@ Proof.
     intros H; injection H as <- <-; intros NE; try reflexivity; exfalso; apply NE; reflexivity.
 Qed.
 
-Lemma visit_nodes_ok ns il t st : all_visible ns t st = true -> visit_nodes ns il t st = EOk.
+Lemma visit_nodes_ok ns il t st : all_visible ns t st = true -> visit_nodes ns il t st EOk = EOk.
 Proof.
   induction ns as [|n r IH]; cbn [all_visible forallb visit_nodes]; [reflexivity|].
-  intros H. apply andb_true_iff in H as [H1 H2]. rewrite H1. apply IH. exact H2.
+  intros H. apply andb_true_iff in H as [H1 H2]. rewrite H1. destruct (nmem n il); apply IH; exact H2.
 Qed.
 
 Lemma visit_all_ok d ver l :
